@@ -280,7 +280,15 @@ def e3_drive(run, acc, plan, shapes=None, label="E3"):
             sp = run.fresh("shapes", ".json")
             json.dump(shapes, open(sp, "w"))
             cmd += ["--shapes", sp]
-        p = vlib.sh(cmd, timeout=3000, check=False)
+        try:
+            p = vlib.sh(cmd, timeout=3000, check=False)
+        except ToolError:
+            # (a driver that does not come back - a call of the library that does not terminate - is treated like one that aborted)
+            if acc.fails:
+                acc.notes.setdefault("e3_driver_ended_abnormally", []).append({"n": n, "status": "timeout", "profiles": [q["profile"] for q in ps]})
+                tid0 += len(ps)
+                continue
+            raise
         if p.returncode != 0:
             # the driver process ended abnormally (the library aborted it: a stack overflow in inspect(), say).  When failures of
             # this run are already on record (E2 reports such a crash with the call that was running), they stand and this group
